@@ -54,10 +54,15 @@ def run(ctx):
         traces.append(("random seed %d" % s, rp))
     distinct = set()
     nonzero = {"fee": 0, "imp": 0, "col": 0}
+    cuts_two_tokens = 0   # position cuts paying out in both tokens (secondary output: the PnL -> collateral swap failed)
     for name, path in traces:
         fails, drifts, _ = ctx.validate_trace("Trace_Vaults", path, timeout=3000, heap="6g")
         ev = vlib.read_ndjson(path)
         for e in ev:
+            if e["ok"] and e["op"] in ("liquidate", "auto_deleverage"):
+                moved = [t for t in e["pre"]["vault"] if e["post"]["vault"][t] != e["pre"]["vault"][t]]
+                if len(moved) >= 2:
+                    cuts_two_tokens += 1
             if e["ok"]:
                 distinct.add((e["op"], json.dumps(e["post"]["bal"], sort_keys=True), json.dumps(e["post"]["vault"], sort_keys=True)))
                 for k in nonzero:
@@ -70,11 +75,13 @@ def run(ctx):
                                                "events": ev[max(0, f["i"] - 4):f["i"]]})
     ctx.distinct += len(distinct)
     need = ["execute_deposit/ok", "execute_withdrawal/ok", "execute_order/ok", "execute_shift/ok", "claim_fees/ok",
-            "market_transfer_in/ok", "close_deposit/ok", "create_order/ok", "execute_increase/ok", "execute_decrease/ok"]
+            "market_transfer_in/ok", "close_deposit/ok", "create_order/ok", "execute_increase/ok", "execute_decrease/ok",
+            "liquidate/ok", "auto_deleverage/ok", "update_adl_state/ok", "close_cut_order/ok"]
     missing = [c for c in need if c not in classes]
-    if (missing or not nonzero["fee"] or not nonzero["imp"] or not nonzero["col"] or not hops) and not ctx.violations:
-        raise vlib.ToolError("vacuity: missing %s, events with fee pool %d, impact pool %d, collateral %d, hops %d"
-                             % (missing, nonzero["fee"], nonzero["imp"], nonzero["col"], hops))
+    if (missing or not nonzero["fee"] or not nonzero["imp"] or not nonzero["col"] or not hops or cuts_two_tokens < 4) and not ctx.violations:
+        raise vlib.ToolError("vacuity: missing %s, events with fee pool %d, impact pool %d, collateral %d, hops %d, cuts with secondary output %d"
+                             % (missing, nonzero["fee"], nonzero["imp"], nonzero["col"], hops, cuts_two_tokens))
+    ctx.cov["position_cuts_with_secondary_output"] = cuts_two_tokens
     ctx.cov["per_class"] = {c: classes[c] for c in sorted(classes)}
     ctx.cov["instructions_executed"] = instr
     ctx.cov["swap_hops_executed"] = hops
@@ -88,9 +95,13 @@ def run(ctx):
         "instructions bound to code: create/execute/close of deposits (incl. swap paths on both sides), withdrawals (incl. swap paths), "
         "MarketSwap orders along 1-3 markets, shifts, MarketIncrease / MarketDecrease orders; claim_fees_from_market; "
         "market_transfer_in; plain SPL transfers into a vault",
-        "position collateral comes from MarketIncrease / MarketDecrease orders (leverage 2, constant prices, no swap path); liquidations, "
-        "ADL and position orders with swap paths are not executed",
-        "prices are constant; swap fees 0.3% / 0.5% and quadratic swap impact are configured on the two-token markets so that the fee "
+        "position collateral comes from MarketIncrease / MarketDecrease orders (leverage 2, no swap path); positions are cut by "
+        "liquidate and by update_adl_state + auto_deleverage after a 10% index price move in their favour, for every combination of "
+        "position side and collateral side, with the cut's PnL -> collateral swap succeeding and failing (pool cap 1 => secondary output "
+        "in the PnL token); the market is configured to allow the cut (min_collateral_factor_for_liquidation = 2, max_pnl_factor_for_adl "
+        "= 1e-6) by recorded update_market_config instructions; position orders with swap paths are not executed",
+        "prices move only in the cut scenarios and in the random scripts (feeds rewritten through the PriceFeed hook between instructions)",
+        "swap fees 0.3% / 0.5% and quadratic swap impact are configured on the two-token markets so that the fee "
         "and impact pools are non-zero",
         "every monitor is evaluated on the state read back from the accounts after each successful instruction, including the "
         "intermediate create / close instructions of an action"]
